@@ -64,6 +64,7 @@ func c06Years(c *ctx) {
 				gm = append(gm, row)
 			}
 			f["get"] = gm
+			f["t2"] = moList(ly.GetMonths())
 			// extension (outside C06): the year-level accessors of the lunar-year object
 			f["yr"] = []string{ly.GetYuan(), ly.GetYun(), ly.GetGanZhi(), ly.GetTouLiang(), ly.GetCaoZi(), ly.GetGengTian(), ly.GetHuaShou(), ly.GetZhiShui(),
 				ly.GetTuoGu(), ly.GetQiangMi(), ly.GetKanCan(), ly.GetGongZhu(), ly.GetJiaTian(), ly.GetFenBing(), ly.GetDeJin(), ly.GetRenBing(), ly.GetRenChu()}
